@@ -24,9 +24,10 @@
    NOT proved (no theorem below claims it): parse_fragment (serialize t) = t
    for vocabulary trees.  That needs the tokenizer and tree-builder models;
    it is judged on the implementation by the round-trip oracle of
-   lib/checks/c07.py.  The reversibility theorem is stated against the
-   hand-written tokenizer fragment SerSpec.untok, not against the tokenizer
-   model. *)
+   lib/checks/c07.py.  The reversibility theorem C07_escape_reversible is
+   stated against the hand-written tokenizer fragment SerSpec.untok; the
+   theorems at the END of this file state it against the tokenizer model
+   (TokIR interpreter on the regenerated html table and entity table). *)
 From Coq Require Import List NArith Bool.
 From HV Require Import Base.Utf8 HtmlSer.SerModel HtmlSer.SerSpec HtmlSer.SerProofs.
 Import ListNotations.
@@ -180,3 +181,99 @@ Example C07_nonvacuous :
     Some [97; 38; 97; 109; 112; 59; 38; 110; 98; 115; 112; 59;
           60; 115; 116; 121; 108; 101; 62; 60; 60; 47; 115; 116; 121; 108; 101; 62; 60; 98; 114; 62]%N.
 Proof. split; vm_compute; reflexivity. Qed.
+
+(* ------------------------------------------------------------------ nothing escapes its context: the REAL tokenizer model
+   HtmlSer/SerLex.v + Inst/InstSerLex.v.  The statements above use the hand-written fragment SerSpec.untok; the ones below
+   use the TokIR interpreter (TokIR/Interp.v) on the html table regenerated from html5ever/src/tokenizer/mod.rs on every run,
+   with named character references looked up in the entity table regenerated from the compiled PHF map
+   ([hent] = alookup Gen.GenEntities.entities): reference semantics (flat queue, exact_errors = true), transported to the
+   default mode (chunked queue, bulk reads, SIMD scan) by TokIR/BulkSim.v.
+   [obs]: TError entries dropped, adjacent character tokens merged (TokIR/BulkSim.v).  In exact mode the tokenizer reports
+   one parse error for every control character / noncharacter of s; these are the only other entries.
+   That the five references resolve (amp; lt; gt; quot; nbsp;) and that the longest-match logic does not overshoot past
+   the semicolon, whatever character follows, is decided by computation on the regenerated entity table inside the proofs. *)
+From HV Require Import TokIR.IR TokIR.Interp TokIR.Checks TokIR.QueueSim TokIR.BulkSim Gen.GenHtmlTok HtmlSer.SerLex Inst.InstBulk Inst.InstSerLex.
+
+(* the escaped text never leaves the Data state, whatever follows it (x = U+003C in particular): from ANY machine in the
+   Data state (no pending character reference, reconsume and ignore_lf clear) whose unread input starts with
+   escape_spec false t followed by a character x, finitely many steps lead to a machine in the same state whose unread
+   input is x :: q, whose configuration differs in current_char and line only, and which has delivered, up to [obs],
+   the character token t and nothing else *)
+Theorem C07_escaped_text_stays_in_data :
+  forall sg ss sn c1 sk t x q (m : mach hstate (list N)),
+  Forall okc t -> St HData m -> mq m = escape_spec false t ++ x :: q ->
+  exists n m', iter html_flavour html_table (sg, ss, sn) hent c1 sk n m = Some m' /\ mq m' = x :: q /\
+               EffS false t m m' /\ St HData m'.
+Proof. exact text_stays_in_data. Qed.
+Print Assumptions C07_escaped_text_stays_in_data.
+
+(* the escaped attribute value never leaves the double-quoted attribute-value state: the same, the characters of t being
+   appended to the current attribute value and no token delivered (up to [obs]) *)
+Theorem C07_escaped_value_stays_in_attribute :
+  forall sg ss sn c1 sk t x q (m : mach hstate (list N)),
+  Forall okc t -> St HAV m -> mq m = escape_spec true t ++ x :: q ->
+  exists n m', iter html_flavour html_table (sg, ss, sn) hent c1 sk n m = Some m' /\ mq m' = x :: q /\
+               EffS true t m m' /\ St HAV m'.
+Proof. exact value_stays_in_attribute. Qed.
+Print Assumptions C07_escaped_value_stays_in_attribute.
+
+(* (a) whole runs, text: escape_spec false s as the whole input, then end() *)
+Theorem C07_escaped_text_lexes_back :
+  forall simd c1 sk last s, ~ In 0%N s -> ~ In 13%N s ->
+  exists fuel0, forall fuel, (fuel0 <= fuel)%nat ->
+    let r := drive_flat html_flavour true html_table simd hent c1 sk fuel [] [escape_spec false s]
+               (mkmach (init_cfg HData last false) [] [] 0%N) [] in
+    snd r = [SSuspend; SSuspend] /\ st (mc (fst r)) = HData /\
+    exists l k l' k', obs (mout (fst r)) = (TEof, l', k') :: match s with [] => [] | _ => [(TChars s, l, k)] end.
+Proof. exact html_escaped_text_lexes_back. Qed.
+Print Assumptions C07_escaped_text_lexes_back.
+
+(* (b) whole runs, attribute values: less-than a space b equals QUOT ([pre6]), escape_spec true s, QUOT greater-than, then
+   end(), for a sink that does not answer on the tag name a: exactly one start tag a with the single attribute (b, s) *)
+Theorem C07_escaped_attr_lexes_back :
+  forall simd c1 sk last s,
+  lookup_resp [97%N] (sk_resp sk) = None -> ~ In 0%N s -> ~ In 13%N s ->
+  exists fuel0, forall fuel, (fuel0 <= fuel)%nat ->
+    let r := drive_flat html_flavour true html_table simd hent c1 sk fuel [] [pre6 ++ escape_spec true s ++ [34; 62]%N]
+               (mkmach (init_cfg HData last false) [] [] 0%N) [] in
+    snd r = [SSuspend; SSuspend] /\ st (mc (fst r)) = HData /\
+    exists l k l' k', obs (mout (fst r)) = [(TEof, l', k'); (TTag TStartTag [97%N] false [([98%N], s)] false, l, k)].
+Proof. exact html_escaped_attr_lexes_back. Qed.
+Print Assumptions C07_escaped_attr_lexes_back.
+
+(* the same for the tokenizer's DEFAULT mode: the chunked-queue interpreter with exact_errors = false (bulk reads, SIMD
+   scan; the interpreter that runs against the Rust code), for every fuel with which its run ends regularly *)
+Theorem C07_escaped_text_lexes_back_default_mode :
+  forall c1 sk last s fuel, ~ In 0%N s -> ~ In 13%N s ->
+  let rf := drive_chunked html_flavour false html_table html_simd hent c1 sk fuel [] [escape_spec false s]
+              (mkmach (init_cfg HData last false) [] [] 0%N) [] in
+  regular (snd rf) ->
+  snd rf = [SSuspend; SSuspend] /\ st (mc (fst rf)) = HData /\
+  exists l k l' k', obs (mout (fst rf)) = (TEof, l', k') :: match s with [] => [] | _ => [(TChars s, l, k)] end.
+Proof. exact html_escaped_text_lexes_back_default_mode. Qed.
+Print Assumptions C07_escaped_text_lexes_back_default_mode.
+
+Theorem C07_escaped_attr_lexes_back_default_mode :
+  forall c1 sk last s fuel,
+  lookup_resp [97%N] (sk_resp sk) = None -> ~ In 0%N s -> ~ In 13%N s ->
+  let rf := drive_chunked html_flavour false html_table html_simd hent c1 sk fuel [] [pre6 ++ escape_spec true s ++ [34; 62]%N]
+              (mkmach (init_cfg HData last false) [] [] 0%N) [] in
+  regular (snd rf) ->
+  snd rf = [SSuspend; SSuspend] /\ st (mc (fst rf)) = HData /\
+  exists l k l' k', obs (mout (fst rf)) = [(TEof, l', k'); (TTag TStartTag [97%N] false [([98%N], s)] false, l, k)].
+Proof. exact html_escaped_attr_lexes_back_default_mode. Qed.
+Print Assumptions C07_escaped_attr_lexes_back_default_mode.
+
+(* non-vacuity (a test, by computation): s = a & b NBSP LT GT QUOT U+0001 LF c, 25 / 30 characters escaped; the text run
+   delivers 12 entries (10 character tokens, one parse error for U+0001, EOF), observably the character token s and EOF *)
+Example C07_lex_example :
+  let rt := drive_flat html_flavour true html_table html_simd hent (fun _ => None) lex_sk 200 [] [escape_spec false lex_s]
+              (mkmach (init_cfg HData None false) [] [] 0%N) [] in
+  let ra := drive_flat html_flavour true html_table html_simd hent (fun _ => None) lex_sk 200 [] [pre6 ++ escape_spec true lex_s ++ [34; 62]%N]
+              (mkmach (init_cfg HData None false) [] [] 0%N) [] in
+  map (fun e => fst (fst e)) (obs (mout (fst rt))) = [TEof; TChars lex_s] /\
+  map (fun e => fst (fst e)) (obs (mout (fst ra))) = [TEof; TTag TStartTag [97%N] false [([98%N], lex_s)] false] /\
+  length (escape_spec false lex_s) = 25%nat /\ length (escape_spec true lex_s) = 30%nat /\
+  length (mout (fst rt)) = 12%nat.
+Proof. exact lex_example. Qed.
+Print Assumptions C07_lex_example.
